@@ -13,6 +13,7 @@ SPEC = {
     'groups': [{
         'name': 'plugin', 'wrapper': 'w07.cpp', 'harness': 'h07.c',
         'config': {'memleak': True, 'stubs': STUBS, 'defines': ['-DCPPUTEST_VERIF_HASH_TABLE_SIZE=4'], 'heapcheck': False, 'empty_regex': ['^_ZN[0-9]+[A-Za-z]*FailureC[12]E', '^_ZN[0-9]+[A-Za-z]*FailureD[012]E']},
-        'obligations': [{'fn': 'harness_two_tests_%s' % k, 'tier': ('quick' if k in ('1_0', '0_0') else 'thorough'), 'unwind': 6, 'timeout': 2400, 'cbmc_flags': ['--max-field-sensitivity-array-size', '128'], 'unwindset': ['_ZN12SimpleString6StrCmpEPKcS1_.0:28', '_ZN12SimpleString6StrLenEPKc.0:40', '_ZN12SimpleString7StrNCpyEPcPKcm.0:40', 'env_fputs.0:40'], 'bounds': 'two consecutive tests: %s; expected-leak counts 0..3, ignore flags and own pass/fail of both tests symbolic' % d} for k, d in D.items()],
+        'obligations': [{'fn': 'harness_two_tests_%s' % k, 'tier': ('quick' if k in ('1_0', '0_0') else 'thorough'),   # 2_1 and 3_3: the SAT back end runs out of the 25 GB cap (not claimed)
+                         'unwind': 6, 'timeout': 2400, 'cbmc_flags': ['--max-field-sensitivity-array-size', '128'], 'unwindset': ['_ZN12SimpleString6StrCmpEPKcS1_.0:28', '_ZN12SimpleString6StrLenEPKc.0:40', '_ZN12SimpleString7StrNCpyEPcPKcm.0:40', 'env_fputs.0:40'], 'bounds': 'two consecutive tests: %s; expected-leak counts 0..3, ignore flags and own pass/fail of both tests symbolic' % d} for k, d in D.items() if k not in ('2_1', '3_3')],
     }],
 }
